@@ -179,8 +179,17 @@ class MetadataManager:
                         f"but found: {current.last_updated_ms}"
                     )
 
-                # PHASE 2: Prepare new version
-                new_metadata.last_updated_ms = int(datetime.now().timestamp() * 1000)
+                # PHASE 2: Prepare new version.
+                # last_updated_ms is half of the OCC stamp validated above. A
+                # metadata-only commit (snapshot expiry / deletion) keeps
+                # current_snapshot_id, so on a coarse clock two versions committed
+                # in the same millisecond would carry the same stamp and a stale
+                # committer would pass validation and undo the other commit. Make
+                # the stamp strictly increase along the version chain.
+                now_ms = int(datetime.now().timestamp() * 1000)
+                if current is not None:
+                    now_ms = max(now_ms, current.last_updated_ms + 1)
+                new_metadata.last_updated_ms = now_ms
 
                 # Read current version (and, on CAS backends, the hint's ETag so
                 # the commit point below can be a true compare-and-swap).
